@@ -214,3 +214,6 @@ func vSingleProc() func() {
 	old := runtime.GOMAXPROCS(1)
 	return func() { runtime.GOMAXPROCS(old) }
 }
+
+// vNoNative marks the current path as depending on an engine-only model (no-op natively).
+func vNoNative() {}
